@@ -32,7 +32,7 @@ Proof. vm_compute. reflexivity. Qed.
 
 (* every unique-name filter is evaluated at render time (volatile/context), except the listed C++ one *)
 Theorem uniq_filters_lemma :
-  forallb (fun f => filter_ok f || str_in (f_lang f) known_foldable_langs) g_uniq_filters = true.
+  forallb filter_ok g_uniq_filters = true.
 Proof. vm_compute. reflexivity. Qed.
 
 (* every store on a long-lived object in the render phase is classified (reset per file -- with the translated reset facts --,
@@ -67,3 +67,17 @@ Proof. vm_compute. reflexivity. Qed.
 (* the template engine is constructed with per-environment values only *)
 Theorem env_kwargs_ok_lemma : forallb envkw_ok g_env_kwargs = true /\ (0 < length g_env_kwargs)%nat.
 Proof. vm_compute. split; [reflexivity | repeat constructor]. Qed.
+
+Theorem lexer_key_complete_lemma : lexer_key_complete g_lexer_key g_lexer_reads = true.
+Proof. vm_compute. reflexivity. Qed.
+
+(* every read that spans more than a type and its closure -- Namespace API, generator namespace, environment globals, language
+   context, include/dependency builders -- in render-phase Python code and in templates a type file can be made of is accounted
+   for; templates reachable only from Namespace.j2 may list their namespace's types *)
+Theorem wide_reads_classified_lemma : forallb read_ok g_wide_reads = true.
+Proof. vm_compute. reflexivity. Qed.
+
+Example unclassified_read_shows_the_input_set :
+  let bad := {| w_file := [120]; w_where := [121]; w_name := [122]; w_kind := WTemplateType |} in
+  reads_leak [bad] = true /\ reads_leak g_wide_reads = false.
+Proof. vm_compute. split; reflexivity. Qed.
